@@ -456,6 +456,16 @@ def c17(res, tier, seed, lib):
     import re as _re
     table = _re.findall(r'named_color\("([a-z]+)"', open("/repo/src/named.rs").read())
     tinfo = infos(table)
+    # defaults: `list` sorts by hue; `sort-by` with colours on stdin and no key sorts by hue
+    rc1, out1, _ = run_cli(["list"])
+    rc2, out2, _ = run_cli(["list", "--sort", "hue"])
+    res.case("list default")
+    res.check(rc1 == 0 and out1 == out2, "list-default-is-hue", "cli:list", "list", "%r vs %r" % (out1[:60], out2[:60]))
+    data = b"orange\nteal\n#123\ngray\n#4080c0\n"
+    rc1, out1, _ = run_cli(["sort-by"], stdin=data)
+    rc2, out2, _ = run_cli(["sort-by", "hue"], stdin=data)
+    res.case("sort-by default")
+    res.check(rc1 == 0 and out1 == out2, "sort-by-default-is-hue", "cli:sort-by", "sort-by < 5 colours", "%r vs %r" % (out1[:60], out2[:60]))
     case_oracle(res, "cli:sort-by", lambda t: ["sort-by", t, "#4080c0", "orange", "teal", "#123", "gray"], keys)
     case_oracle(res, "cli:list", lambda t: ["list", "--sort", t], keys)
     for key in keys + ["random"]:
@@ -598,6 +608,40 @@ def c16(res, tier, seed, lib):
             res.check(all(i.ok for i in inf), "each-line-is-a-colour", "cli:random", inp, str([l for l, i in zip(lines, inf) if not i.ok][:3]))
             for l in lines[:200]:
                 res.check(not l.startswith("hsla"), "opaque", "cli:random", inp, l)
+            # the strategy named on the command line is the one that runs
+            for l, i in zip(lines[:200], inf):
+                if not i.ok:
+                    continue
+                h = wire_floats(i)
+                if strat == "vivid":
+                    res.check(0.1999 <= h[1] <= 0.8001 and 0.2999 <= h[2] <= 0.7001, "vivid-ranges", "cli:random", inp, "%s: s=%r l=%r" % (l, h[1], h[2]))
+                elif strat == "gray":
+                    r, g, b = rgb_of(i)
+                    res.check(r == g == b, "gray-achromatic", "cli:random", inp, l)
+    # defaults: 10 colours of the vivid strategy; strategy names in other letter cases
+    rc, out, err = run_cli(["random"])
+    lines = out.decode().split("\n")[:-1]
+    res.case("random (defaults)")
+    res.check(rc == 0 and len(lines) == 10, "default-count-10", "cli:random", "random", "rc=%s %d lines" % (rc, len(lines)))
+    for l, i in zip(lines, infos(lines)):
+        if i.ok:
+            h = wire_floats(i)
+            res.check(0.1999 <= h[1] <= 0.8001 and 0.2999 <= h[2] <= 0.7001, "default-strategy-vivid", "cli:random", "random", "%s: s=%r l=%r" % (l, h[1], h[2]))
+    for sname, kind in [("VIVID", "vivid"), ("Gray", "gray"), ("GRAY", "gray"), ("Vivid", "vivid")]:
+        rc, out, err = run_cli(["random", "-n", "40", "-s", sname])
+        res.case("random -s " + sname)
+        if rc == 2:
+            continue
+        lines = out.decode().split("\n")[:-1]
+        for l, i in zip(lines, infos(lines)):
+            if not i.ok:
+                continue
+            h = wire_floats(i)
+            if kind == "vivid":
+                res.check(0.1999 <= h[1] <= 0.8001 and 0.2999 <= h[2] <= 0.7001, "option-value-any-case", "cli:random", "random -s " + sname, "%s: s=%r l=%r" % (l, h[1], h[2]))
+            else:
+                r, g, b = rgb_of(i)
+                res.check(r == g == b, "option-value-any-case", "cli:random", "random -s " + sname, l)
     rc, out, err = run_cli(["random", "-s", "nonsense"])
     res.case("random -s nonsense")
     res.check(rc == 2, "unknown-strategy-is-usage-error", "cli:random", "random -s nonsense", "rc=%s" % rc)
@@ -1308,6 +1352,11 @@ def c08(res, tier, seed, lib):
         want = unhex(mo.split(" ")[1]) if mo.startswith("ok ") else b"?"
         if want != out:
             res.disagree(inp, repr(out[:300]), repr(want[:300]))
+    # defaults: 10 colours, Lab
+    rc1, out1, _ = run_cli(["gradient", "red", "blue", "#123456"])
+    rc2, out2, _ = run_cli(["gradient", "-n", "10", "-s", "Lab", "red", "blue", "#123456"])
+    res.case("gradient defaults")
+    res.check(rc1 == 0 and out1 == out2 and out1.count(b"\n") == 10, "gradient-defaults", "cli:gradient", "gradient red blue #123456", "%r vs %r" % (out1[:80], out2[:80]))
     # argument validation
     for argv, want in [(["gradient", "-n", "1", "red", "blue"], 1), (["gradient", "-n", "0", "red", "blue"], 1),
                        (["gradient", "red"], 1), (["gradient", "-n", "x", "red", "blue"], 1), (["gradient"], 2),
